@@ -79,6 +79,8 @@ std::string observe(const Linear_Expression& e, const ME& m, std::string& detail
     Expression_Adapter_Transparent<Linear_Expression> a(e);
     size_t n = m.c.size();
     size_t s = rnd(0, (int) n), t = rnd(0, (int) n); if (s > t) std::swap(s, t);
+    // [0,0) makes DENSE all_zeroes_except answer false (defect, reported once in a while so the rest stays visible)
+    if (s == 0 && t == 0 && !coin((int) hx::opt().geti("aze00", 2))) t = 1;
     bool az = true; size_t nz = 0, fnz = t, lnz = t; bool seen = false;
     for (size_t i = s; i < t; ++i) { if (m.c[i] != 0) { az = false; if (!seen) { fnz = i; seen = true; } lnz = i; } else ++nz; }
     if (a.all_zeroes(s, t) != az) { d << "all_zeroes(" << s << "," << t << ")"; detail = d.str(); return "all_zeroes_range"; }
@@ -93,7 +95,7 @@ std::string observe(const Linear_Expression& e, const ME& m, std::string& detail
       bool z = true; for (Variables_Set::const_iterator i = vs.begin(); i != vs.end(); ++i) if (m.c[*i + 1] != 0) z = false;
       if (e.all_zeroes(vs) != z) { detail = "all_zeroes(Variables_Set) = " + std::to_string(e.all_zeroes(vs)); return "all_zeroes_vars"; }
       bool ze = true; for (size_t i = s; i < t; ++i) if (m.c[i] != 0 && (i == 0 || vs.count(i - 1) == 0)) ze = false;
-      if (a.all_zeroes_except(vs, s, t) != ze) { d << "all_zeroes_except(vars," << s << "," << t << ") = " << !ze; detail = d.str(); return "all_zeroes_except"; }
+      if (a.all_zeroes_except(vs, s, t) != ze) { d << "all_zeroes_except(vars," << s << "," << t << ") = " << !ze << (s == 0 && t == 0 ? " [empty@0]" : ""); detail = d.str(); return "all_zeroes_except"; }
       std::set<dimension_type> fs, want; for (size_t i = 0; i < n; ++i) if (coin(40)) { fs.insert(i); if (m.c[i] == 0) want.insert(i); }
       a.has_a_free_dimension_helper(fs);
       if (fs != want) { detail = "has_a_free_dimension_helper"; return "has_a_free_dimension_helper"; }
@@ -123,21 +125,30 @@ void rd::case_expr() {
   std::string lastop;
 
   auto check_all = [&](const std::string& op) -> bool {
+    const std::string opb = op.substr(0, op.find('@')), opc = op.find('@') == std::string::npos ? std::string() : op.substr(op.find('@') + 1);
     for (int i = 0; i < NP; ++i) {
       std::string det; checked();
       // twin vs twin first (the C16 statement), then twin vs model
       const Linear_Expression& X = S[i].X; const Linear_Expression& Y = S[i].Y;
       bool eq = X.space_dimension() == Y.space_dimension() && X.inhomogeneous_term() == Y.inhomogeneous_term();
       for (dimension_type v = 0; eq && v < X.space_dimension(); ++v) if (X.coefficient(Variable(v)) != Y.coefficient(Variable(v))) eq = false;
-      if (!eq) { violation("C16.diff.Linear_Expression." + op + ":coefficients", "slot " + std::to_string(i) + " X=" + show(X) + " Y=" + show(Y) + " model=" + show(S[i].M)); return false; }
-      if (!X.is_equal_to(Y) || !Y.is_equal_to(X)) { violation("C16.diff.Linear_Expression." + op + ":is_equal_to", std::string("twins with equal coefficients are not is_equal_to; reps ") + repclass(X, Y) + " X=" + show(X)); return false; }
-      if (compare(X, Y) != 0 || compare(Y, X) != 0) { violation("C16.diff.Linear_Expression." + op + ":compare", std::string("compare(twin, twin) != 0; reps ") + repclass(X, Y) + " X=" + show(X)); return false; }
-      { std::string a = str(X), b = str(Y); if (a != b) { violation("C16.diff.Linear_Expression." + op + ":print", a + " vs " + b); return false; } }
-      { std::string a = dump(X), b = dump(Y); if (a != b) { violation("C16.diff.Linear_Expression." + op + ":ascii_dump", a + " vs " + b); return false; } }
-      std::string w = observe(X, S[i].M, det);
-      if (!w.empty()) { violation("C16.model.Linear_Expression." + op + ":" + w + (X.representation() == DENSE ? "-dense" : "-sparse"), det + " X=" + show(X) + " model=" + show(S[i].M)); return false; }
-      w = observe(Y, S[i].M, det);
-      if (!w.empty()) { violation("C16.model.Linear_Expression." + op + ":" + w + (Y.representation() == DENSE ? "-dense" : "-sparse"), det + " Y=" + show(Y) + " model=" + show(S[i].M)); return false; }
+      if (!eq) { violation("C16.diff.Linear_Expression." + opb + ":" + (opc.empty() ? std::string("coefficients") : opc), "slot " + std::to_string(i) + " X=" + show(X) + " Y=" + show(Y) + " model=" + show(S[i].M)); return false; }
+      if (!X.is_equal_to(Y) || !Y.is_equal_to(X)) { violation("C16.diff.Linear_Expression." + opb + ":" + (opc.empty() ? std::string("is_equal_to") : opc), std::string("twins with equal coefficients are not is_equal_to; reps ") + repclass(X, Y) + " X=" + show(X)); return false; }
+      if (compare(X, Y) != 0 || compare(Y, X) != 0) { violation("C16.diff.Linear_Expression." + opb + ":" + (opc.empty() ? std::string("compare") : opc), std::string("compare(twin, twin) != 0; reps ") + repclass(X, Y) + " X=" + show(X)); return false; }
+      { std::string a = str(X), b = str(Y); if (a != b) { violation("C16.diff.Linear_Expression." + opb + ":" + (opc.empty() ? std::string("print") : opc), a + " vs " + b); return false; } }
+      { std::string a = dump(X), b = dump(Y); if (a != b) { violation("C16.diff.Linear_Expression." + opb + ":" + (opc.empty() ? std::string("ascii_dump") : opc), a + " vs " + b); return false; } }
+      for (int t = 0; t < 2; ++t) {
+        const Linear_Expression& E = t ? Y : X; std::string w = observe(E, S[i].M, det);
+        if (w.empty()) continue;
+        std::string rep = E.representation() == DENSE ? "dense" : "sparse";
+        std::string base = op.substr(0, op.find('@')), cls = op.find('@') == std::string::npos ? "" : op.substr(op.find('@') + 1);
+        std::string key;
+        if (!cls.empty() || w == "OK" || w == "space_dimension" || w == "inhomogeneous_term" || w == "coefficient")
+          key = "C16.diff.Linear_Expression." + base + ":" + (cls.empty() ? w + "-" + rep + "-vs-model" : cls);     // the operation produced a wrong value / broke the invariant
+        else
+          key = "C16.diff.Linear_Expression." + w + ":" + rep + (det.find("[empty@0]") != std::string::npos ? "-empty-range-at-0" : "-vs-model");   // an observer misreports a right value
+        violation(key, det + (t ? " Y=" : " X=") + show(E) + " model=" + show(S[i].M)); return false;
+      }
     }
     return true;
   };
@@ -188,30 +199,24 @@ void rd::case_expr() {
         int w = rnd(0, (int) M.dim() - 1); if (coin(30)) k = 0; op = "set_coefficient"; args << w << "," << k; tr(pre.str() + op + "(" + args.str() + ")"); A.X.set_coefficient(Variable(w), k); A.Y.set_coefficient(Variable(w), k); M.c[w + 1] = k; break; }
       case 16: { if (coin(30)) k = 0; op = "set_inhomogeneous_term"; args << k; tr(pre.str() + op + "(" + args.str() + ")"); A.X.set_inhomogeneous_term(k); A.Y.set_inhomogeneous_term(k); M.c[0] = k; break; }
       case 17: { int n = coin(30) ? rnd(0, (int) M.dim()) : rnd(0, maxv); op = "set_space_dimension"; args << n; tr(pre.str() + op + "(" + args.str() + ")"); A.X.set_space_dimension(n); A.Y.set_space_dimension(n); M.c.resize(n + 1); break; }
-      case 18: case 19: { // linear_combine(y, v): same dimension, both coefficients of v nonzero (asserted preconditions)
-        op = "linear_combine_var";
-        size_t n = std::max(M.dim(), MB.dim());
-        Linear_Expression yx(argX, n, rand_rep() == DENSE ? argX.representation() : argX.representation()), yy(argY, n);   // copies extended to n (never truncating here)
-        ME my = MB; my.c.resize(n + 1);
-        std::vector<size_t> cand; for (size_t i = 0; i <= std::min(M.dim(), n); ++i) if (i < M.c.size() && M.c[i] != 0 && my.c[i] != 0) cand.push_back(i);
-        if (cand.empty() || M.dim() != n) { hx::count("expr.skip.linear_combine_var"); op.clear(); break; }
-        size_t i = cand[rnd(0, (int) cand.size() - 1)];
-        if (i == 0) { hx::count("expr.skip.linear_combine_var"); op.clear(); break; }   // Variable needed
-        args << "#" << b << ",v" << i - 1; tr(pre.str() + op + "(" + args.str() + ")");
-        A.X.linear_combine(yx, Variable(i - 1)); A.Y.linear_combine(yy, Variable(i - 1));
-        Z g; mpz_gcd(g.get_mpz_t(), M.c[i].get_mpz_t(), my.c[i].get_mpz_t()); Z nx = M.c[i] / g, ny = my.c[i] / g;
-        for (size_t j = 0; j < M.c.size(); ++j) M.c[j] = M.c[j] * ny - my.c[j] * nx;
-        break; }
+      // NOTE: the public, documented Linear_Expression::linear_combine(const Linear_Expression&, Variable) is declared
+      // but defined nowhere in the library (link error), so it cannot be driven; its private dimension_type overload is
+      // reached through Linear_System::gauss / back_substitute by the Polyhedron clients of the `sys` workload.
+      case 18: case 19:
       case 20: case 21: case 22: { bool lax = coin(40); op = lax ? "linear_combine_lax" : "linear_combine";
         if (lax) { if (coin(25)) k = 0; if (coin(25)) k2 = 0; } else { if (k == 0) k = 1; if (k2 == 0) k2 = -1; }
         // Documented as `*this = *this * c1 + y * c2`.  With an argument of lower dimension PPL leaves the receiver's
         // trailing coefficients unscaled (defect, both representations alike): visited rarely so the rest stays visible.
         bool lower = MB.dim() < M.dim();
-        if (lower && k != 1 && !coin((int) hx::opt().geti("lcdim", 10))) { hx::count("expr.skip.linear_combine_lowerdim"); op.clear(); break; }
+        if (lower && k != 1 && !coin((int) hx::opt().geti("lcdim", 5))) { hx::count("expr.skip.linear_combine_lowerdim"); op.clear(); break; }
+        // c1 == 0 with a SPARSE receiver and a DENSE argument stores zeroes in the sparse row (defect): visited, but not every time
+        bool sz = lax && k == 0 && k2 != 0 && ((A.X.representation() == SPARSE && argX.representation() == DENSE) || (A.Y.representation() == SPARSE && argY.representation() == DENSE));
+        if (sz && !coin((int) hx::opt().geti("laxsz", 30))) { hx::count("expr.skip.lax_stored_zero"); op.clear(); break; }
         args << "#" << b << ":" << rs(argX.representation()) << rs(argY.representation()) << "," << k << "," << k2; tr(pre.str() + op + "(" + args.str() + ")");
         if (lax) { A.X.linear_combine_lax(argX, k, k2); A.Y.linear_combine_lax(argY, k, k2); } else { A.X.linear_combine(argX, k, k2); A.Y.linear_combine(argY, k, k2); }
         M.grow(MB.dim()); for (size_t i = 0; i < M.c.size(); ++i) M.c[i] = M.c[i] * k + (i < MB.c.size() ? MB.c[i] * k2 : Z(0));
-        if (lower && k != 1) op += "@arg-lower-dim";
+        if (sz) op += (lower && k != 1) ? "@c1-zero-sparse-receiver-dense-arg+arg-lower-dim" : "@c1-zero-sparse-receiver-dense-arg";
+        else if (lower && k != 1) op += "@arg-lower-dim-tail-unscaled";
         break; }
       case 23: { if (M.dim() < 1) { op.clear(); break; } int i = rnd(0, (int) M.dim() - 1), j = coin(10) ? i : rnd(0, (int) M.dim() - 1); op = "swap_space_dimensions"; args << i << "," << j; tr(pre.str() + op + "(" + args.str() + ")");
         A.X.swap_space_dimensions(Variable(i), Variable(j)); A.Y.swap_space_dimensions(Variable(i), Variable(j)); std::swap(M.c[i + 1], M.c[j + 1]); break; }
@@ -233,9 +238,10 @@ void rd::case_expr() {
         if (how == 0) { op = "assign"; args << "#" << b; tr(pre.str() + op + "(" + args.str() + ")"); A.X = argX; A.Y = argY; M = MB; }
         else if (how == 1) { op = "copy_repr"; args << "#" << b << "," << rs(rx) << rs(ry); tr(pre.str() + op + "(" + args.str() + ")"); A.X = Linear_Expression(argX, rx); A.Y = Linear_Expression(argY, ry); M = MB; }
         else if (how == 2) { op = n < MB.dim() ? "copy_dim_truncate" : "copy_dim"; args << "#" << b << ":" << rs(argX.representation()) << rs(argY.representation()) << "," << n; tr(pre.str() + op + "(" + args.str() + ")"); A.X = Linear_Expression(argX, n); A.Y = Linear_Expression(argY, n); M = MB; M.c.resize(n + 1); }
-        else { op = n < MB.dim() ? "copy_dim_repr_truncate" : "copy_dim_repr"; args << "#" << b << ":" << rs(argX.representation()) << rs(argY.representation()) << "," << n << "," << rs(rx) << rs(ry); tr(pre.str() + op + "(" + args.str() + ")");
+        else { if (n < MB.dim() && !coin((int) hx::opt().geti("truncds", 8))) { if (argX.representation() == DENSE) rx = DENSE; if (argY.representation() == DENSE) ry = DENSE; }
+          op = n < MB.dim() ? "copy_dim_repr_truncate" : "copy_dim_repr"; args << "#" << b << ":" << rs(argX.representation()) << rs(argY.representation()) << "," << n << "," << rs(rx) << rs(ry); tr(pre.str() + op + "(" + args.str() + ")");
           A.X = Linear_Expression(argX, n, rx); A.Y = Linear_Expression(argY, n, ry); M = MB; M.c.resize(n + 1);
-          if (n < MB.dim()) op += std::string("@") + rs(argX.representation()) + "to" + rs(rx) + "," + rs(argY.representation()) + "to" + rs(ry); }
+          if (n < MB.dim() && ((argX.representation() == DENSE && rx == SPARSE) || (argY.representation() == DENSE && ry == SPARSE))) op += "@truncating-dense-to-sparse"; }
         break; }
       case 33: { bool ms = coin(); op = ms ? "m_swap" : "swap"; args << "#" << b; tr(pre.str() + op + "(" + args.str() + ")"); if (ms) { A.X.m_swap(B.X); A.Y.m_swap(B.Y); } else { using std::swap; swap(A.X, B.X); swap(A.Y, B.Y); } std::swap(A.M, B.M); break; }
       case 34: { op = "set_representation"; Representation rx = rand_rep(), ry = rand_rep(); args << rs(rx) << rs(ry); tr(pre.str() + op + "(" + args.str() + ")"); A.X.set_representation(rx); A.Y.set_representation(ry); hx::count("expr.repr_flips"); break; }
@@ -291,10 +297,10 @@ void rd::case_expr() {
           const Linear_Expression& x = *xs[p]; const Linear_Expression& y = *ys[q]; std::string rc = repclass(x, y); checked(); hx::count("expr.binary_query_combos");
           int c = compare(x, y); if (c != mc) { violation("C16.diff.Linear_Expression.compare:" + rc, "compare = " + std::to_string(c) + " expected " + std::to_string(mc) + " x=" + show(x) + " y=" + show(y)); return; }
           if (x.is_equal_to(y) != meq) { violation("C16.diff.Linear_Expression.is_equal_to:" + rc, "x=" + show(x) + " y=" + show(y)); return; }
-          Expression_Adapter_Transparent<Linear_Expression> ax(x), ay(y);
-          if (ax.is_equal_to(ay, s, t) != req) { violation("C16.diff.Linear_Expression.is_equal_to_range:" + rc, "range [" + std::to_string(s) + "," + std::to_string(t) + ") x=" + show(x) + " y=" + show(y)); return; }
-          if (ax.is_equal_to(ay, c1, c2, s, t) != req2) { violation("C16.diff.Linear_Expression.is_equal_to_scaled:" + rc, "c1=" + zs(c1) + " c2=" + zs(c2) + " range [" + std::to_string(s) + "," + std::to_string(t) + ") x=" + show(x) + " y=" + show(y)); return; }
-          if (t1 > s1 || true) { bool h = ax.have_a_common_variable(ay, Variable(s1 - 1), Variable(t1 - 1)); if (h != common) { violation("C16.diff.Linear_Expression.have_a_common_variable:" + rc, "range [" + std::to_string(s1) + "," + std::to_string(t1) + ") x=" + show(x) + " y=" + show(y)); return; } }
+          Expression_Adapter_Transparent<Linear_Expression> ax(x);
+          if (ax.is_equal_to(y, s, t) != req) { violation("C16.diff.Linear_Expression.is_equal_to_range:" + rc, "range [" + std::to_string(s) + "," + std::to_string(t) + ") x=" + show(x) + " y=" + show(y)); return; }
+          if (ax.is_equal_to(y, c1, c2, s, t) != req2) { violation("C16.diff.Linear_Expression.is_equal_to_scaled:" + rc, "c1=" + zs(c1) + " c2=" + zs(c2) + " range [" + std::to_string(s) + "," + std::to_string(t) + ") x=" + show(x) + " y=" + show(y)); return; }
+          { bool h = ax.have_a_common_variable(y, Variable(s1 - 1), Variable(t1 - 1)); if (h != common) { violation("C16.diff.Linear_Expression.have_a_common_variable:" + rc, "range [" + std::to_string(s1) + "," + std::to_string(t1) + ") x=" + show(x) + " y=" + show(y)); return; } }
           if (sp_ok) {
             Z z; Scalar_Products::assign(z, x, y); if (z != sp) { violation("C16.diff.Linear_Expression.scalar_product:" + rc, zs(z) + " expected " + zs(sp) + " x=" + show(x) + " y=" + show(y)); return; }
             if (Scalar_Products::sign(x, y) != sgn(sp)) { violation("C16.diff.Linear_Expression.scalar_product_sign:" + rc, "x=" + show(x) + " y=" + show(y)); return; }
@@ -329,11 +335,9 @@ void rd::case_alias() {
     Linear_Expression e(r); ME M;
     int n = rnd(0, maxv); for (int v = 0; v < n; ++v) if (coin(wide ? 30 : 60)) { Z k = rand_z(true); e += k * Variable(v); M.grow(v + 1); M.c[v + 1] = k; }
     if (coin()) { Z k = rand_z(true); e += k; M.c[0] = k; }
-    int kind = rnd(0, 9); Z k = rand_small_nz(), k2 = rand_small_nz();
-    const char* names[10] = { "add_assign", "sub_assign", "add_mul_assign", "sub_mul_assign", "linear_combine", "linear_combine_lax", "assign", "swap", "m_swap", "linear_combine_var" };
+    int kind = rnd(0, 8); Z k = rand_small_nz(), k2 = rand_small_nz();
+    const char* names[9] = { "add_assign", "sub_assign", "add_mul_assign", "sub_mul_assign", "linear_combine", "linear_combine_lax", "assign", "swap", "m_swap" };
     std::string op = names[kind];
-    size_t nzv = 0; for (size_t i = 1; i < M.c.size(); ++i) if (M.c[i] != 0) { nzv = i; break; }
-    if (kind == 9 && nzv == 0) continue;
     ME W = M;
     switch (kind) {
     case 0: for (auto& c : W.c) c *= 2; break;
@@ -341,7 +345,6 @@ void rd::case_alias() {
     case 2: for (auto& c : W.c) c *= (1 + k); break;
     case 3: for (auto& c : W.c) c *= (1 - k); break;
     case 4: case 5: for (auto& c : W.c) c *= (k + k2); break;
-    case 9: for (auto& c : W.c) c = 0; break;     // x*ny - x*nx with nx == ny
     default: break;
     }
     tr(" | alias " + op + " on " + show(e) + " k=" + zs(k) + " k2=" + zs(k2));
@@ -357,7 +360,6 @@ void rd::case_alias() {
       case 6: e = e; break;
       case 7: { using std::swap; swap(e, e); break; }
       case 8: e.m_swap(e); break;
-      case 9: e.linear_combine(e, Variable(nzv - 1)); break;
       }
       if (!e.OK()) return 4;
       return same(e, W) ? 0 : 3;
